@@ -5,6 +5,7 @@ use crate::rng::Rng;
 use crate::util::*;
 use heathcliff::*;
 
+#[derive(Clone)]
 pub struct Item { pub ct: Ciphertext, pub m: Vec<u64>, pub pred: f64 }
 
 pub fn shadow_mul(a: &[u64], b: &[u64], t: u64) -> Vec<u64> {
@@ -76,7 +77,16 @@ impl<'a> Prog<'a> {
     }
 
     /// one random operation; returns (class, result) or None when not applicable
-    pub fn step(&mut self, r: &mut Rng) -> Option<(String, Item)> {
+    /// like `step`, also returning the operands (clones) the operation was applied to
+    pub fn step_with_operands(&mut self, r: &mut Rng) -> Option<(String, Item, Item, Item)> {
+        let before: Vec<Item> = self.pool.clone();
+        let save = (r.0,);
+        let _ = save;
+        let (cls, item, ia, ib) = self.step_idx(r)?;
+        Some((cls, item, before[ia].clone(), before[ib].clone()))
+    }
+    pub fn step(&mut self, r: &mut Rng) -> Option<(String, Item)> { self.step_idx(r).map(|(c, i, _, _)| (c, i)) }
+    fn step_idx(&mut self, r: &mut Rng) -> Option<(String, Item, usize, usize)> {
         let s = self.s; let ev = &s.evaluator; let t = self.t;
         let ia = r.below(self.pool.len() as u64) as usize;
         // second operand at the same level and in the same representation
@@ -118,7 +128,7 @@ impl<'a> Prog<'a> {
                 let ln = log2(self.n as f64);
                 Some((cls("mod_switch", a, None), Item { ct: ev.mod_switch_to_next_new(&a.ct), m: a.m.clone(), pred: (a.pred - 1.0).min(nb - log2(t as f64) - ln - 8.0) })) }
         } }));
-        match res { Ok(x) => x, Err(_) => { let m = LAST_PANIC.with(|p| p.borrow().clone()); Some((format!("panic-op{}", op), Item { ct: Ciphertext::new(), m: vec![u64::MAX], pred: -1.0 }.with_note(m))) } }
+        match res { Ok(x) => x.map(|(c, i)| (c, i, ia, ib)), Err(_) => { let m = LAST_PANIC.with(|p| p.borrow().clone()); Some((format!("panic-op{}", op), Item { ct: Ciphertext::new(), m: vec![u64::MAX], pred: -1.0 }.with_note(m), ia, ib)) } }
     }
 }
 
@@ -155,7 +165,7 @@ pub fn run(out: &mut Out, thorough: bool, seed: u64, _extra: &[String]) {
         let mut done = 0; let mut tries = 0;
         while done < steps && tries < steps * 6 {
             tries += 1;
-            let (cls, item) = match prog.step(&mut r) { Some(x) => x, None => continue };
+            let (cls, item, opa, opb) = match prog.step_with_operands(&mut r) { Some(x) => x, None => continue };
             if cls.starts_with("panic") {
                 let m = LAST_PANIC.with(|p| p.borrow().clone());
                 out.raw(&format!("!FAIL prog-step {} {} :: operation on valid operands panicked: {} # {}", scheme_name(scheme), cls, m.replace('\n', " "), cls));
@@ -167,6 +177,11 @@ pub fn run(out: &mut Out, thorough: bool, seed: u64, _extra: &[String]) {
             // BFV ciphertexts held in NTT form are viewed through transform_from_ntt for decryption
             let view = if scheme == SchemeType::BFV && item.ct.is_ntt_form() { s.evaluator.transform_from_ntt_new(&item.ct) } else { item.ct.clone() };
             out.case(&format!("prog {} {} {}", s.ct_case(&view), pred, fl(&trim(&item.m))), &cls, || s.dec_str(&view));
+            // bit-exact model of the operation itself (operands and result dumped): add / sub (incl. BGV factor balancing) / negate / multiply / square
+            let opname = cls.split('-').next().unwrap_or("");
+            if ["add", "sub", "negate", "multiply", "square"].contains(&opname) && s.n <= 16 {
+                out.case(&format!("ct_op {} 0 0 0 | {} | {} | {}", opname, s.ct_case(&opa.ct), s.ct_case(&opb.ct), s.ct_case(&item.ct)), &format!("op-{}", cls), || "ok".to_string());
+            }
             // keep it only while it is still usable as an operand
             if item.pred >= 6.0 && prog.pool.len() < 10 { prog.pool.push(item); }
             else if item.pred >= 6.0 { let k = r.below(prog.pool.len() as u64) as usize; prog.pool[k] = item; }
